@@ -230,6 +230,9 @@ class Ctx:
         e.update({k: str(v) for k, v in (env or {}).items()})
         cmd = ["go", "test", "-tags", tags, "-vet=off", "-count=1", "-overlay", ov, "-run", run,
                "-timeout", "%ds" % int(timeout)]
+        if pkg in LOCKED_PKGS and "-exec" not in e.get("GOFLAGS", ""):
+            # private network namespace for test binaries that bind fixed ports (see lib/netns_exec.sh)
+            cmd += ["-exec", os.path.join(VERIF, "lib", "netns_exec.sh")]
         if race:
             cmd.append("-race")
         if parallel:
